@@ -1,6 +1,7 @@
 #!/bin/sh
 # usage: seedcheck.sh <PROP> <patch.diff> [more props...]   -- apply a seeded change to /repo, run the checks, undo it
 patch=$2; shift 2 2>/dev/null
+export PYVC_EVIDENCE_DIR=${TMPDIR:-/tmp}/seed_evidence
 git -C /repo apply "$patch" || exit 9
 for p in "$@"; do
   (cd /verif && ./check $p 2>&1 | grep -E "VIOLATION|->" | cut -c1-220 | tail -4)
